@@ -144,7 +144,14 @@ func newParentController(
 		if err != nil {
 			return nil, fmt.Errorf("can't parse child resource groupVersion: %w", err)
 		}
-		childInformers.Set(groupVersion.WithResource(child.Resource), childInformer)
+		childGVR := groupVersion.WithResource(child.Resource)
+		if childInformers.Get(childGVR) != nil {
+			// The same resource is listed twice: keep a single subscription,
+			// otherwise the first one would be overwritten and never closed.
+			childInformer.Close()
+			continue
+		}
+		childInformers.Set(childGVR, childInformer)
 	}
 
 	parentGroupVersion := schema.GroupVersion{Group: parentResource.Group, Version: parentResource.Version}
